@@ -98,6 +98,12 @@ const HELPERS: &[(&str, &str)] = &[
     ("vfill2", "(define (vfill2 v i x) (vector-set! v i x) (vfill! v (+ i 1) x))"),
     ("vfill!", "(define (vfill! v i x) (if (< i (vector-length v)) (vfill2 v i x) x))"),
     ("make-ctr0", "(define (make-ctr0) (define n 0) (lambda () (set! n (+ n 1)) n))"),
+    (
+        "make-chain",
+        "(define (make-chain n next) (lambda () (set! n (+ n 1)) (if (procedure? next) (next) n)))",
+    ),
+    ("self-many", "(define (self-many n) (if (= n 0) 0 (self-many (- n 1) 99)))"),
+    ("self-few", "(define (self-few n m) (if (= n 0) m (self-few (- n 1))))"),
     ("f0", "(define (f0) 10)"),
     ("f2", "(define (f2 a b) (+ a b))"),
     ("fr", "(define (fr a b . r) (+ a b))"),
@@ -959,6 +965,69 @@ impl Gen {
                 }
                 true
             }
+            32 => {
+                // closures of ONE lambda text that tail-call each other: each runs in its own frame
+                if self.names_with(Role::Counter).len() >= 8 {
+                    return false;
+                }
+                self.need("make-chain");
+                let next = if self.rng.chance(3, 4) { self.pick_name(Role::Counter) } else { None };
+                let c = self.fresh("c");
+                let k = self.small_lit();
+                let mut roots = vec![c.clone()];
+                let next_sx = match next {
+                    Some(n) => {
+                        roots.push(n.clone());
+                        sym(&n)
+                    }
+                    None => Sx::Bool(false),
+                };
+                self.roles.insert(c.clone(), Role::Counter);
+                self.emit(
+                    list(vec![sym("define"), sym(&c), call("make-chain", vec![int(k), next_sx])]),
+                    "mk-chained-closure",
+                    roots,
+                    true,
+                );
+                true
+            }
+            33 => {
+                // literal vectors nested inside quoted data are literals too
+                if self.names_with(Role::VecList).len() >= 3 || self.names_with(Role::Vec).len() >= 8 {
+                    return false;
+                }
+                if self.rng.chance(1, 2) {
+                    let name = self.fresh("l");
+                    self.roles.insert(name.clone(), Role::VecList);
+                    let a = self.small_lit();
+                    let b = self.small_lit();
+                    self.emit(
+                        list(vec![
+                            sym("define"),
+                            sym(&name),
+                            quote(list(vec![Sx::Vector(vec![int(a), int(b)]), Sx::Vector(vec![int(b)])])),
+                        ]),
+                        "mk-quoted-list-of-literal-vectors",
+                        vec![name],
+                        false,
+                    );
+                } else {
+                    let name = self.fresh("v");
+                    self.roles.insert(name.clone(), Role::Vec);
+                    let a = self.small_lit();
+                    self.emit(
+                        list(vec![
+                            sym("define"),
+                            sym(&name),
+                            quote(Sx::Vector(vec![Sx::Vector(vec![int(a), int(a + 1)]), int(5)])),
+                        ]),
+                        "mk-literal-vector-in-literal-vector",
+                        vec![name],
+                        true,
+                    );
+                }
+                true
+            }
             29 => {
                 // a closure stored in a vector slot, then called through the slot
                 let Some((path, id, mut roots)) = self.vec_path() else { return false };
@@ -1067,7 +1136,7 @@ impl Gen {
                 self.need("f0");
                 self.need("f2");
                 self.need("fr");
-                let v = self.rng.upto(16);
+                let v = self.rng.upto(18);
                 let vn = self.ensure_vec();
                 (
                     match v {
@@ -1078,6 +1147,14 @@ impl Gen {
                         13 => call("vector-length", vec![]),
                         14 => call("cdr", vec![quote(list(vec![int(1)])), int(2)]),
                         15 => call("fr", vec![]),
+                        16 => {
+                            self.need("self-many");
+                            call("self-many", vec![int(self.rng.range(1, 4))])
+                        }
+                        17 => {
+                            self.need("self-few");
+                            call("self-few", vec![int(self.rng.range(1, 4)), int(5)])
+                        }
                         0 => call("f2", vec![int(1)]),
                         1 => call("f2", vec![int(1), int(2), int(3)]),
                         2 => call("fr", vec![int(1)]),
@@ -1436,6 +1513,26 @@ impl Gen {
                     }
                 }
             }
+            8 => {
+                // many frames between the fault and the top level, none of them a tail call
+                if !int_valued {
+                    return None;
+                }
+                let name = self.fresh("tx");
+                define_proc(
+                    self,
+                    &name,
+                    vec![sym("n")],
+                    vec![list(vec![
+                        sym("if"),
+                        call("=", vec![sym("n"), int(0)]),
+                        e,
+                        call("+", vec![int(1), list(vec![sym(&name), call("-", vec![sym("n"), int(1)])])]),
+                    ])],
+                );
+                let k = self.rng.range(10, 40);
+                Some((list(vec![sym(&name), int(k)]), "deep-nontail".into(), true))
+            }
             _ => None,
         }
     }
@@ -1465,7 +1562,7 @@ impl Gen {
         let depth = self.rng.pick_weighted(&[2, 5, 3]);
         let mut top = depth == 0;
         for _ in 0..depth {
-            let ctx = self.rng.upto(8);
+            let ctx = self.rng.upto(9);
             if let Some((ne, label, iv)) = self.wrap(e.clone(), ctx, int_valued) {
                 e = ne;
                 int_valued = iv;
@@ -1477,6 +1574,11 @@ impl Gen {
         }
         if top {
             labels.push("top-level".into());
+        }
+        if !dynamic && self.rng.chance(1, 5) {
+            // the same failing form again and again: nothing may accumulate across failures
+            repeat = *self.rng.pick(&[3u64, 8, 12]);
+            labels.push(format!("storm-x{}", repeat));
         }
         let in_definition = int_valued && self.rng.chance(1, 4);
         if in_definition {
@@ -1501,7 +1603,7 @@ pub fn generate_a(seed: u64, quick: bool, faults: bool) -> Value {
     let hash_seed = rng.next_u64() | 1;
     // swarm configuration
     let steps = if quick { rng.range(10, 40) } else { rng.range(10, 60) } as usize;
-    let nops = 32;
+    let nops = 34;
     let mut weights: Vec<u32> = (0..nops).map(|_| if rng.chance(1, 4) { 0 } else { rng.range(1, 6) as u32 }).collect();
     if weights.iter().all(|w| *w == 0) {
         weights[0] = 1;
